@@ -58,6 +58,11 @@ impl vstd::std_specs::convert::FromSpecImpl<ShipType> for u8 {
     open spec fn from_spec(v: ShipType) -> u8 { 0 }
 }
 
+// the derived `Default` (`#[default] NotReady`) is outside the verus! subset: assumed here, checked in K
+pub assume_specification[ <Dte as core::default::Default>::default ]() -> (r: Dte)
+    ensures r == Dte::NotReady,
+;
+
 /// data terminal: 0 ready, 1 not ready (default)
 pub open spec fn dte_spec(d: u8) -> Dte { if d == 0 { Dte::Ready } else { Dte::NotReady } }
 /// assigned-mode flag: 0 autonomous and continuous, 1 assigned
